@@ -585,13 +585,18 @@ func httpFrameWriteCallDepth(call *ssa.Call, depth int) (bool, int) {
 	}
 	if isHTTPFrameWriter(callee) {
 		end := -1
-		for i, pp := range callee.Params {
-			if b, isB := pp.Type().Underlying().(*types.Basic); isB && b.Kind() == types.Bool && i < len(call.Call.Args) {
+		if i, isBool, k, ok := frameWriterEndParam(callee); ok && i < len(call.Call.Args) {
+			if isBool {
 				if v, isC := core.ConstBool(call.Call.Args[i]); isC {
 					end = 0
 					if v {
 						end = 1
 					}
+				}
+			} else if v, isC := core.ConstInt(call.Call.Args[i]); isC {
+				end = 0
+				if v == k {
+					end = 1
 				}
 			}
 		}
@@ -766,4 +771,111 @@ func inprocDataWriteOfParam(fn *ssa.Function, j int, depth int) bool {
 		}
 	}
 	return true
+}
+
+// expandLeaves: a leaf that is the result of a single-use step helper of the
+// module (what a "split function" clean-up leaves) is replaced by the leaves of
+// that helper's returns; facts inside the helper speak about its parameters,
+// which core.ResolveFree maps to the arguments of the only call.
+func expandLeaves(ls []core.ErrLeaf, depth int) []core.ErrLeaf {
+	var out []core.ErrLeaf
+	for _, l := range ls {
+		call, idx, ok := core.CallResult(l.V)
+		var h *ssa.Function
+		if ok {
+			h = call.Call.StaticCallee()
+		}
+		if h == nil || h.Blocks == nil || depth > 2 || core.InlineSite[h] != ssa.Instruction(call) {
+			out = append(out, l)
+			continue
+		}
+		var sub []core.ErrLeaf
+		for _, r := range core.Returns(h) {
+			if idx < len(r.Results) {
+				sub = append(sub, core.ErrLeaves(r.Results[idx], r)...)
+			}
+		}
+		out = append(out, expandLeaves(sub, depth+1)...)
+	}
+	return out
+}
+
+// flagSetOnlyAfter: v (seen through single-use helper parameters) is a bool φ of
+// fn whose true edges all come from paths that passed an instruction accepted
+// by pass; its other edges are false or loop-carried copies of itself.
+func flagSetOnlyAfter(v ssa.Value, fn *ssa.Function, pass func(ssa.Instruction) bool) bool {
+	phi, ok := core.ResolveFree(v).(*ssa.Phi)
+	if !ok || phi.Parent() != fn || core.TypeStr(phi.Type()) != "bool" {
+		return false
+	}
+	seen := map[*ssa.Phi]bool{}
+	var okPhi func(p *ssa.Phi) bool
+	okPhi = func(p *ssa.Phi) bool {
+		if seen[p] {
+			return true
+		}
+		seen[p] = true
+		for i, e := range p.Edges {
+			if b, isB := core.ConstBool(e); isB {
+				if !b {
+					continue
+				}
+				pred := p.Block().Preds[i]
+				if !core.MustPass(core.Entry(fn), pred.Instrs[len(pred.Instrs)-1], pass) {
+					return false
+				}
+				continue
+			}
+			if p2, isPhi := e.(*ssa.Phi); isPhi && okPhi(p2) {
+				continue
+			}
+			return false
+		}
+		return true
+	}
+	return okPhi(phi)
+}
+
+// frameWriterEndParam: the parameter of an HTTP frame writer that says "this is
+// the final (trailer) frame": a bool, or a parameter of a private integer kind
+// type that the writer only compares with one constant (the final kind k).
+func frameWriterEndParam(fn *ssa.Function) (idx int, isBool bool, k int64, ok bool) {
+	for i, pp := range fn.Params {
+		if b, isB := pp.Type().Underlying().(*types.Basic); isB && b.Kind() == types.Bool {
+			return i, true, 0, true
+		}
+	}
+	for i, pp := range fn.Params {
+		b, isB := pp.Type().Underlying().(*types.Basic)
+		if !isB || b.Info()&types.IsInteger == 0 {
+			continue
+		}
+		if _, named := pp.Type().(*types.Named); !named {
+			continue
+		}
+		var ks []int64
+		only := true
+		for _, r := range core.Refs(pp) {
+			switch x := r.(type) {
+			case *ssa.BinOp:
+				y := x.Y
+				if x.Y == ssa.Value(pp) {
+					y = x.X
+				}
+				c, isC := core.ConstInt(y)
+				if x.Op != token.EQL || !isC {
+					only = false
+				} else {
+					ks = append(ks, c)
+				}
+			case *ssa.DebugRef:
+			default:
+				only = false
+			}
+		}
+		if only && len(ks) == 1 {
+			return i, false, ks[0], true
+		}
+	}
+	return -1, false, 0, false
 }
